@@ -165,8 +165,8 @@ def conditions(ctx, clauses='g1,g2,g3,g4,g5', focus='C09'):
                              extra_pre=['k == %d' % k, 'vi == %d' % vi],
                              bound='skeleton %r + one character over all of Unicode + %r' % (pre, post),
                              symbolic='code point of the hole character'))
-    for col in (() if q else (0, 1, 2, 3)):
-        C.append(xh.Cond(T, 'tok_start_c', timeout=1200, path_timeout=60, env=env, name='tok/start_pos/col=%d' % col,
+    for col in (() if q else (0, 3)):
+        C.append(xh.Cond(T, 'tok_start_c', timeout=600, path_timeout=60, env=env, name='tok/start_pos/col=%d' % col,
                          extra_pre=['col == %d' % col],
                          bound='tokenize(c + "x\\n", start_pos=(L, %d)) for every Unicode c and every line L >= 1' % col,
                          symbolic='code point, start line'))
